@@ -271,6 +271,31 @@ def do_live(ctx, inst, props):
         shutil.rmtree(d, ignore_errors=True)
 
 
+def do_apalache(ctx):
+    """unbounded capacity: the inductive invariant of spec/apalache/ChannelInd.tla (bound, conservation,
+    DropOldest's retry always finds room) checked with Apalache for every Cap >= 1"""
+    import subprocess
+    src = os.path.join(ROOT, "spec", "apalache", "ChannelInd.tla")
+    d = tlc.workdir("apalache")
+    try:
+        shutil.copy(src, d)
+        res = []
+        for init, length in (("Init", "0"), ("IndInit", "1")):
+            try:
+                p = subprocess.run(["apalache-mc", "check", "--cinit=ConstInit", "--init=" + init, "--inv=IndInv",
+                                    "--length=" + length, "ChannelInd.tla"], cwd=d, stdout=subprocess.PIPE,
+                                   stderr=subprocess.STDOUT, text=True, timeout=600)
+                ok = "EXITCODE: OK" in p.stdout
+                res.append({"init": init, "length": int(length), "ok": ok})
+                if not ok:
+                    ctx.errors.append("Apalache: IndInv is not inductive (%s):\n%s" % (init, p.stdout[-1500:]))
+            except Exception as ex:  # noqa
+                ctx.errors.append("Apalache could not be run: %r" % ex)
+        ctx.apalache = res
+    finally:
+        shutil.rmtree(d, ignore_errors=True)
+
+
 def handle_cex(ctx, inst, r, d, what):
     b = counterexample_behaviour(r.trace)
     res, path, tr = replay_behaviours(inst, [b], d, "cex")
@@ -410,6 +435,7 @@ def write_evidence(ctx, extra=None):
         "model_checking": ctx.mc, "replay": ctx.gens, "free_runs": ctx.frees,
         "replayed_behaviours": ctx.replayed, "free_traces_accepted": ctx.traces,
         "blocked_probes_confirmed": getattr(ctx, "probes", 0),
+        "apalache_inductive_invariant": getattr(ctx, "apalache", None),
         "checker_cmd": "tlc (TLC2 2026.09.04) on spec/RsStore.tla + Props.tla / Gen.tla / Trace.tla, instances generated by tools/families.py",
         "known_findings_reported": [f["id"] for f, _ in ctx.known], "notes": ctx.notes[:20],
     }
@@ -491,6 +517,8 @@ def main():
     if "mc" in only and not ctx.violations:
         for inst, props in T["live"]:
             do_live(ctx, inst, props)
+        if a.tier != "quick" and a.pid in ("C05", "C06"):
+            do_apalache(ctx)
     if "gen" in only and not ctx.violations:
         for inst, limit in T["gen"]:
             do_gen(ctx, inst, limit)
